@@ -158,7 +158,9 @@ func (s *Set) getTemplate(templatePath string, cacheAfterParsing bool) (t *Templ
 
 	t, err = s.getTemplateFromLoader(templatePath, cacheAfterParsing)
 	if err == nil && cacheAfterParsing && !s.developmentMode {
-		s.cache.Put(templatePath, t)
+		// t.Name is the path (extension included) the template was found under,
+		// which is what getTemplateFromCache() will ask the cache for
+		s.cache.Put(t.Name, t)
 	}
 	return t, err
 }
